@@ -17,7 +17,8 @@ Denominations are identified with asset ids (`Asset.Denom` of asset `i` is `i`; 
 not-found asset is `0`).  Accounts are numbers (users, pool module accounts, reserve, auction).
 The user↔lend↔borrow index (`UserAssetLendBorrowMapping`) is *derived* from the positions: its entry for
 a lend exists iff the lend exists and lists the ids of the borrows whose `LendingID` is that lend.
-Not modelled (never enabled by the harness): ESM kill switch, pool depreciation, block-gas.
+The ESM kill switch (per app) and the pool-depreciation list are state (`killed`, `depPools`) and guard the handlers at the places
+the code has them. Not modelled: block-gas.
 -/
 namespace Comdex.Lend
 open Comdex
@@ -109,6 +110,7 @@ structure Lend where
   asset : Nat
   amountIn : Int
   avail : Int            -- AvailableToBorrow
+  app : Nat := 0         -- AppID (the kill switch is looked up under it)
   deriving Repr, DecidableEq
 
 structure Borrow where
@@ -174,7 +176,14 @@ structure State where
   lendCtr : Nat := 0
   borrowCtr : Nat := 0
   prices : List (Nat × Nat) := []      -- active oracle prices (asset id ↦ twa)
+  killed : List Nat := []              -- app ids whose ESM kill switch (`BreakerEnable`) is on
+  depPools : List Nat := []            -- pool ids listed in the pool-depreciation record
   deriving Repr
+
+/-- `esm.GetKillSwitchData(app).BreakerEnable` -/
+def State.isKilled (s : State) (app : Nat) : Bool := s.killed.contains app
+/-- `IsPoolDepreciated`: listed is enough, the flag of the entry is not read -/
+def State.isDep (s : State) (pool : Nat) : Bool := s.depPools.contains pool
 
 def getLend (ls : List Lend) (id : Nat) : Option Lend := ls.find? (fun l => l.id == id)
 def setLend (ls : List Lend) (v : Lend) : List Lend := ls.map fun l => if l.id = v.id then v else l
@@ -289,7 +298,9 @@ def iterBorrow (s : State) (id : Nat) (x : ExtB) : E State :=
 
 /-- `DepositAsset` (keeper.go:376-447) -/
 def deposit (cfg : Cfg) (s : State) (u lendId denom : Nat) (amt r : Int) : E State := do
-  let _ ← orErr (getLend s.lends lendId) "lend not found"
+  let l0 ← orErr (getLend s.lends lendId) "lend not found"
+  check (!s.isDep l0.pool) "pool depreciated"
+  check (!s.isKilled l0.app) "circuit breaker"
   let s1 ← iterLends cfg s lendId r
   let l ← orErr (getLend s1.lends lendId) "lend not found"
   check (l.owner == u) "unauthorized"
@@ -305,6 +316,8 @@ def deposit (cfg : Cfg) (s : State) (u lendId denom : Nat) (amt r : Int) : E Sta
 
 /-- the guards shared by `LendAsset` (134-183) and `BorrowAlternate` (1381-1421) -/
 def lendGuards (cfg : Cfg) (s : State) (asset denom : Nat) (amt : Int) (poolId app : Nat) : E PoolCfg := do
+  check (!s.isDep poolId) "pool depreciated"
+  check (!s.isKilled app) "circuit breaker"
   let _ ← orErr (cfg.asset? asset) "asset does not exist"
   let pool ← orErr (cfg.pool? poolId) "pool not found"
   let isCommodo ← orErr (cfg.app? app) "app does not exist"
@@ -315,14 +328,14 @@ def lendGuards (cfg : Cfg) (s : State) (asset denom : Nat) (amt : Int) (poolId a
   pure pool
 
 /-- creation of a fresh lend position (keeper.go:202-266 / 1452-1501) -/
-def lendNew (cfg : Cfg) (s : State) (u asset : Nat) (amt : Int) (pool : PoolCfg) : E State := do
+def lendNew (cfg : Cfg) (s : State) (u asset : Nat) (amt : Int) (pool : PoolCfg) (app : Nat := 0) : E State := do
   let rates ← orErr (cfg.rates? asset) "rates not found"
   let _ ← orErr (cfg.asset? rates.cAsset) "asset does not exist"
   let b1 ← s.bank.send u pool.acct asset amt
   let b2 ← b1.mint pool.acct rates.cAsset amt
   let b3 ← b2.send pool.acct u rates.cAsset amt
   let _ ← orErr (getStats s.stats pool.id asset) "stats not found"
-  let l : Lend := { id := s.lendCtr + 1, owner := u, pool := pool.id, asset := asset, amountIn := amt, avail := amt }
+  let l : Lend := { id := s.lendCtr + 1, owner := u, pool := pool.id, asset := asset, amountIn := amt, avail := amt, app := app }
   pure { s with bank := b3, lendCtr := s.lendCtr + 1, lends := s.lends ++ [l],
                                             stats := addTotalLend s.stats pool.id asset amt }
 
@@ -331,11 +344,12 @@ def lend (cfg : Cfg) (s : State) (u asset denom : Nat) (amt : Int) (poolId app :
   let pool ← lendGuards cfg s asset denom amt poolId app
   match findLendByAsset s u asset poolId with
   | some l => deposit cfg s u l.id denom amt r
-  | none => lendNew cfg s u asset amt pool
+  | none => lendNew cfg s u asset amt pool app
 
 /-- `CloseLend` (keeper.go:449-515) -/
 def closeLend (cfg : Cfg) (s : State) (u lendId : Nat) (r : Int) : E State := do
-  let _ ← orErr (getLend s.lends lendId) "lend not found"
+  let l0 ← orErr (getLend s.lends lendId) "lend not found"
+  check (!s.isKilled l0.app) "circuit breaker"
   let s1 ← iterLends cfg s lendId r
   let l ← orErr (getLend s1.lends lendId) "lend not found"
   let pool ← orErr (cfg.pool? l.pool) "pool not found"
@@ -354,6 +368,7 @@ def withdraw (cfg : Cfg) (s : State) (u lendId denom : Nat) (w r : Int) : E Stat
   let l0 ← orErr (getLend s.lends lendId) "lend not found"
   if w = l0.avail ∧ l0.avail ≥ l0.amountIn then closeLend cfg s u lendId r
   else
+    check (!s.isKilled l0.app) "circuit breaker"
     let s1 ← iterLends cfg s lendId r
     let l ← orErr (getLend s1.lends lendId) "lend not found"
     let pool ← orErr (cfg.pool? l.pool) "pool not found"
@@ -376,6 +391,8 @@ def depositBorrow (cfg : Cfg) (s : State) (u borrowId denom : Nat) (x : Int) (ex
   let b0 ← orErr (getBorrow s.borrows borrowId) "borrow not found"
   check (!b0.liq) "borrow liquidated"
   let l ← orErr (getLend s.lends b0.lendingId) "lend not found"
+  check (!s.isDep l.pool) "pool depreciated"
+  check (!s.isKilled l.app) "circuit breaker"
   check (l.owner == u) "unauthorized"
   let s1 ← iterBorrow s borrowId ext
   let b ← orErr (getBorrow s1.borrows borrowId) "borrow not found"
@@ -427,6 +444,8 @@ def draw (cfg : Cfg) (s : State) (u borrowId denom : Nat) (y : Int) (ext : ExtB)
   let pair ← orErr (cfg.pair? b0.pairId) "pair not found"
   let pool ← orErr (cfg.pool? pair.outPool) "pool not found"
   let l ← orErr (getLend s.lends b0.lendingId) "lend not found"
+  check (!s.isDep l.pool) "pool depreciated"
+  check (!s.isKilled l.app) "circuit breaker"
   check (l.owner == u) "unauthorized"
   let s1 ← iterBorrow s borrowId ext
   let b ← orErr (getBorrow s1.borrows borrowId) "borrow not found"
@@ -507,6 +526,8 @@ def borrowNew (cfg : Cfg) (s : State) (u : Nat) (l : Lend) (pair : PairCfg) (rat
 def borrow (cfg : Cfg) (s : State) (u lendId pairId : Nat) (stable : Bool) (dIn : Nat) (aIn : Int)
     (dOut : Nat) (aOut : Int) (e1 e2 : ExtB) : E State := do
   let l ← orErr (getLend s.lends lendId) "lend not found"
+  check (!s.isDep l.pool) "pool depreciated"
+  check (!s.isKilled l.app) "circuit breaker"
   check (l.owner == u) "unauthorized"
   let pair ← orErr (cfg.pair? pairId) "pair not found"
   check ((cfg.pairsOf pair.assetIn l.pool).contains pairId) "pair not found"
@@ -537,7 +558,7 @@ def borrowAlternate (cfg : Cfg) (s : State) (u asset poolId denom : Nat) (amt : 
     let s1 ← deposit cfg s u l.id denom amt r
     borrow cfg s1 u l.id pairId stable rates.cAsset amt dOut aOut e1 e2
   | none =>
-    let s1 ← lendNew cfg s u asset amt pool
+    let s1 ← lendNew cfg s u asset amt pool app
     borrow cfg s1 u s1.lendCtr pairId stable rates.cAsset amt dOut aOut e1 e2
 
 /-- `CloseBorrow` (keeper.go:1266-1379) -/
@@ -549,6 +570,7 @@ def closeBorrow (cfg : Cfg) (s : State) (u borrowId : Nat) (ext : ExtB) : E Stat
   let _ ← orErr (cfg.asset? ratesOut.cAsset) "asset does not exist"
   let pool ← orErr (cfg.pool? pair.outPool) "pool not found"
   let l ← orErr (getLend s.lends b0.lendingId) "lend not found"
+  check (!s.isKilled l.app) "circuit breaker"
   check (l.owner == u) "unauthorized"
   let s1 ← iterBorrow s borrowId ext
   let b ← orErr (getBorrow s1.borrows borrowId) "borrow not found"
@@ -579,6 +601,7 @@ def repay (cfg : Cfg) (s : State) (u borrowId denom : Nat) (p : Int) (ext : ExtB
     let _ ← orErr (cfg.asset? ratesOut.cAsset) "asset does not exist"
     let pool ← orErr (cfg.pool? pair.outPool) "pool not found"
     let l ← orErr (getLend s.lends b0.lendingId) "lend not found"
+    check (!s.isKilled l.app) "circuit breaker"
     check (l.owner == u) "unauthorized"
     let s1 ← iterBorrow s borrowId ext
     let b ← orErr (getBorrow s1.borrows borrowId) "borrow not found"
@@ -622,6 +645,7 @@ def calcBorrow (s : State) (u : Nat) (borrowId : Nat) (ext : ExtB) : E State := 
   let b ← orErr (getBorrow s.borrows borrowId) "borrow not found"
   check (!b.liq) "borrow liquidated"
   let l ← orErr (getLend s.lends b.lendingId) "lend not found"
+  check (!s.isKilled l.app) "circuit breaker"
   check (l.owner == u) "unauthorized"
   iterBorrow s borrowId ext
 
@@ -638,7 +662,8 @@ def calcBorrows (s : State) (u : Nat) : List (Nat × ExtB) → E State
 def calcLends (cfg : Cfg) (s : State) (u : Nat) : List (Nat × Int) → E State
   | [] => .ok s
   | (id, r) :: rest => do
-    let _ ← orErr (getLend s.lends id) "lend not found"
+    let l0 ← orErr (getLend s.lends id) "lend not found"
+    check (!s.isKilled l0.app) "circuit breaker"
     let s1 ← iterLends cfg s id r
     let l ← orErr (getLend s1.lends id) "lend not found"
     check (l.owner == u) "unauthorized"
@@ -682,6 +707,7 @@ def handover (cfg : Cfg) (s : State) (borrowId : Nat) (newInterest : Dec) : E St
   let b ← orErr (getBorrow s.borrows borrowId) "borrow not found"
   check (!b.liq) "already liquidated"
   let l ← orErr (getLend s.lends b.lendingId) "lend not found"
+  check (!s.isKilled l.app) "circuit breaker"                   -- liquidate.go:279-282
   let pair ← orErr (cfg.pair? b.pairId) "pair not found"
   let pool ← orErr (cfg.pool? l.pool) "pool not found"
   let rates ← orErr (cfg.rates? pair.assetIn) "rates not found"
@@ -716,6 +742,8 @@ inductive Op where
   | fundModule (u pool asset denom : Nat) (amt : Int)
   | fundReserve (u asset denom : Nat) (amt : Int)
   | setPrice (asset : Nat) (twa : Option Nat)
+  | setKill (app : Nat) (on : Bool)
+  | setDepreciated (pool : Nat)
   | handover (borrowId : Nat) (newInterest : Dec)
   deriving Repr
 
@@ -737,6 +765,8 @@ def Op.validateBasic : Op → Bool
   | .fundModule _ pool asset _ amt => pool != 0 && asset != 0 && amt > 0
   | .fundReserve _ asset _ amt => asset != 0 && amt > 0
   | .setPrice .. => true
+  | .setKill .. => true
+  | .setDepreciated .. => true
   | .handover .. => true
 
 def setPrice (s : State) (asset : Nat) (twa : Option Nat) : State :=
@@ -744,6 +774,13 @@ def setPrice (s : State) (asset : Nat) (twa : Option Nat) : State :=
   match twa with
   | some t => { s with prices := (asset, t) :: rest }
   | none => { s with prices := rest }
+
+/-- governance / ESM: turn the kill switch of an app on or off -/
+def setKill (s : State) (app : Nat) (on : Bool) : State :=
+  let rest := s.killed.filter fun a => a != app
+  { s with killed := if on then app :: rest else rest }
+/-- governance: list a pool in the depreciation record (`AddPoolDepreciate`) -/
+def setDepreciated (s : State) (pool : Nat) : State := { s with depPools := pool :: s.depPools }
 
 def step (cfg : Cfg) (s : State) (op : Op) : E State :=
   if !op.validateBasic then .error "validate basic" else
@@ -764,6 +801,8 @@ def step (cfg : Cfg) (s : State) (op : Op) : E State :=
   | .fundModule u pool asset denom amt => fundModule cfg s u pool asset denom amt
   | .fundReserve u asset denom amt => fundReserve cfg s u asset denom amt
   | .setPrice asset twa => .ok (setPrice s asset twa)
+  | .setKill app on => .ok (setKill s app on)
+  | .setDepreciated pool => .ok (setDepreciated s pool)
   | .handover borrowId ni => handover cfg s borrowId ni
 
 /-- a rejected message leaves the state unchanged (cache context written back only on success) -/
@@ -807,5 +846,32 @@ def TotalStableEq (cfg : Cfg) (s : State) : Prop :=
 instance (s : State) : Decidable (TotalLendEq s) := by unfold TotalLendEq; infer_instance
 instance (cfg : Cfg) (s : State) : Decidable (TotalBorrowedEq cfg s) := by unfold TotalBorrowedEq; infer_instance
 instance (cfg : Cfg) (s : State) : Decidable (TotalStableEq cfg s) := by unfold TotalStableEq; infer_instance
+
+/-! ## The LTV comparison over the integers (decidable: the driver evaluates it on the REAL accepted operations)
+
+`CalcAssetPrice` is `Dec(amt)·Dec(price)/Dec(decimals)`: the product of two integer `Dec`s is exact, `Quo` truncates the big-integer
+division and then drops 18 digits half-even; the ratio is one more `Quo`. `ExactLtv` is "ratio ≤ ltv" multiplied out with the slack of
+those three roundings: with `u = 10⁻¹⁸`, `D = debt·pout/dOut`, `C = coll·pin/dIn` (exact rationals)
+`(D − ½u − u²)·… < (ltv + ½u + u²)·(C + ½u)`. -/
+
+def ExactLtv (ltv coll pin dIn debt pout dOut : Int) : Prop :=
+  (2 * (debt * pout * Dec.P * Dec.P) - (Dec.P + 2) * dOut + 2) * dIn * (2 * Dec.PP) <
+    ((2 * ltv + 1) * Dec.P + 2) * (2 * (coll * pin * Dec.P * Dec.P) + dIn * Dec.P) * dOut
+
+/-- decimal scales that divide `10^18` make both valuations exact; only the final `Quo` rounds:
+`D / C < ltv + ½u + u²`, multiplied out -/
+def ExactLtvScales (ltv coll pin dIn debt pout dOut : Int) : Prop :=
+  2 * (debt * pout * dIn) * Dec.PP < ((2 * ltv + 1) * Dec.P + 2) * (coll * pin * dOut)
+
+instance (ltv coll pin dIn debt pout dOut : Int) : Decidable (ExactLtv ltv coll pin dIn debt pout dOut) := by
+  unfold ExactLtv; infer_instance
+instance (ltv coll pin dIn debt pout dOut : Int) : Decidable (ExactLtvScales ltv coll pin dIn debt pout dOut) := by
+  unfold ExactLtvScales; infer_instance
+
+/-- the exact LTV inequality for amounts of two configured assets at the prices in force (`false` when something is missing) -/
+def exactLtvOn (cfg : Cfg) (prices : List (Nat × Nat)) (ltv : Dec) (coll : Int) (assetIn : Nat) (debt : Int) (assetOut : Nat) : Bool :=
+  match cfg.asset? assetIn, prices.lookup assetIn, cfg.asset? assetOut, prices.lookup assetOut with
+  | some ai, some pin, some ao, some pout => decide (ExactLtv ltv coll (pin : Int) ai.decimals debt (pout : Int) ao.decimals)
+  | _, _, _, _ => false
 
 end Comdex.Lend
